@@ -341,6 +341,10 @@ def check(repo, rep, tier):
   rule_real_components(repo, rep)
   rule_defassign(repo, rep)
   rule_shapes(repo, rep)
+  # k <= n_features for SCML's low-rank branch; finite soft-max (NCA, MLKR)
+  from . import c15, c10
+  c15.rule_low_rank_condition(repo, rep)
+  c10.rule_stable_softmax(repo, rep)
   # n_features_in_ reflects the LAST fit: typestate rule of C17, restricted
   from . import c17
   before = len(rep.obs)
